@@ -183,16 +183,30 @@ fn sub_sequences(input: &[u8], st: &mut Stats) -> R {
     let core_codes: Vec<u32> = g.core.iter().map(|i| i.opcode).collect();
     let mut prev: u32 = 0;
     let mut log: Vec<String> = vec![];
+    // the tables are process-wide: half of the sequences run alone (no lookup of another thread
+    // between two of theirs), the others concurrently with each other
+    static GATE: std::sync::RwLock<()> = std::sync::RwLock::new(());
+    let alone = cs.bool();
+    let (_w, _r) = if alone { (Some(GATE.write().unwrap_or_else(|e| e.into_inner())), None) } else { (None, Some(GATE.read().unwrap_or_else(|e| e.into_inner()))) };
+    let mut table = 0;
     for _ in 0..60 {
-        let n: u32 = match cs.below(8) {
+        let n: u32 = match cs.below(12) {
             0 | 1 => prev.wrapping_sub(1 + cs.below(2) as u32),
             2 => prev.wrapping_add(1 + cs.below(2) as u32),
             3 => prev,
             4 | 5 => core_codes[cs.below(core_codes.len())],
             6 => cs.below(220) as u32,
+            // numbers that agree with the previous one in their low or high half
+            7 => prev ^ (1 << (16 + cs.below(16))),
+            8 => prev.wrapping_add(65_536 * (1 + cs.below(3)) as u32),
+            9 => prev & 0xffff,
+            10 => (prev & 0xffff_0000) | cs.below(220) as u32,
             _ => cs.u16() as u32,
         };
-        let table = cs.below(4);
+        // three times in four stay in the table of the previous lookup
+        if cs.below(4) == 0 {
+            table = cs.below(4);
+        }
         let r = match table {
             0 | 1 => {
                 let n16 = (n & 0xffff) as u16;
